@@ -71,3 +71,40 @@ Theorem C16_dedup_by_panic_safe : forall e v c ans,
     (fst (dedup_by v ans) = Panic PCallback -> f_drops (snd (dedup_by v ans)) = [] /\ Permutation kept c).
 Proof. exact dedup_by_safe. Qed.
 Print Assumptions C16_dedup_by_panic_safe.
+
+(* ---------- String::retain with a predicate that panics at any call (StringRetain.v): the loop of
+   string.rs at buffer level, the guard's destructor cutting the string to idx - del_bytes.
+   For every valid text and every script of answers (keep / delete / panic) the string afterwards
+   holds exactly the characters kept before the panic: it is valid UTF-8 ---------- *)
+From BV Require Import Utf8 Utf8Facts StringRetain.
+Theorem C16_string_retain_panic_safe : forall s script, Valid s ->
+  fst (retain_run s script) = concat (retain_spec (chars s) script) /\
+  snd (retain_run s script) = panics (chars s) script /\
+  Valid (fst (retain_run s script)).
+Proof. exact retain_run_spec. Qed.
+
+(* the values that loop is written with are the source's (LeafActual.v, regenerated on every run):
+   the guard's new length, the test for moving, source, destination and length of the move *)
+From BV Require Import RustSem LeafActual LeafActualOk VecSourceOk StringSourceOk.
+From Coq Require Import String.
+Theorem C16_source_string_retain : forall base idx del w f, del <= idx -> base + idx < W ->
+  call_fn src_fns [("self"%string, vguard base idx del)] "string_retain_guard_len" [f] = RustSem.Ret (VN (idx - del)) /\
+  let en := [("guard"%string, vguard base idx del); ("ch"%string, vch w)] in
+  call_fn src_fns en "string_retain_must_move" [f] = RustSem.Ret (VB (0 <? del)) /\
+  call_fn src_fns en "string_retain_copy_src" [f] = RustSem.Ret (VN (base + idx)) /\
+  call_fn src_fns en "string_retain_copy_dst" [f] = RustSem.Ret (VN (base + (idx - del))) /\
+  call_fn src_fns en "string_retain_copy_len" [f] = RustSem.Ret (VN w).
+Proof. exact src_string_retain_ok. Qed.
+
+(* and the statements around them: the guard is created with idx = del_bytes = 0 before the loop,
+   the callback runs before either counter moves, idx advances after it, the guard is dropped at
+   the end (and by unwinding) *)
+Theorem C16_source_string_retain_frames :
+  Forall (fun n => lookup n src_frames_string = Some true)
+    ["string_retain_guard_sets_len"; "string_retain_guard_set_len_call"; "string_retain_loop";
+     "string_retain_advances_after_callback"]%string.
+Proof. repeat (constructor; [vm_compute; reflexivity|]). constructor. Qed.
+
+Print Assumptions C16_string_retain_panic_safe.
+Print Assumptions C16_source_string_retain.
+Print Assumptions C16_source_string_retain_frames.
